@@ -14,6 +14,7 @@ import (
 	"os"
 	"os/exec"
 	"path/filepath"
+	"regexp"
 	"strings"
 	"time"
 
@@ -22,6 +23,48 @@ import (
 
 //go:embed testbin/driver.go.txt
 var driverSrc string
+
+//go:embed testbin/crud.go.txt
+var crudDriverSrc string
+
+//go:embed testbin/memdb.go.txt
+var memdbSrc string
+
+//go:embed testbin/pq.go.txt
+var pqFunctionalSrc string
+
+// crudOpts: the C05 oracle runs the generated CRUD file against the in-memory driver
+type crudOpts struct {
+	CrudText string // generated CRUD file
+	Script   string // generated SQL script
+	SpecJSON string // table facts (analysis/sql API), JSON
+}
+
+var reTopFunc = regexp.MustCompile(`(?m)^func ([A-Z]\w*)\(`)
+var reScanOne = regexp.MustCompile(`(?m)^func scanOne(\w+)\(`)
+
+func crudRegistries(c *crudOpts, crudFile string) string {
+	var b strings.Builder
+	if c == nil {
+		b.WriteString("\nvar VerifCrudSpec = \"[]\"\nvar VerifCrudScript = \"\"\nvar VerifCrudNew = map[string]func() interface{}{}\nvar VerifCrudFuncs = map[string]interface{}{}\n")
+		return b.String()
+	}
+	fmt.Fprintf(&b, "\nvar VerifCrudSpec = %q\nvar VerifCrudScript = %q\n", c.SpecJSON, c.Script)
+	b.WriteString("var VerifCrudNew = map[string]func() interface{}{\n")
+	for _, m := range reScanOne.FindAllStringSubmatch(crudFile, -1) {
+		fmt.Fprintf(&b, "\t%q: func() interface{} { return new(%s) },\n", m[1], m[1])
+	}
+	b.WriteString("}\nvar VerifCrudFuncs = map[string]interface{}{\n")
+	seen := map[string]bool{}
+	for _, m := range reTopFunc.FindAllStringSubmatch(crudFile, -1) {
+		if !seen[m[1]] {
+			seen[m[1]] = true
+			fmt.Fprintf(&b, "\t%q: %s,\n", m[1], m[1])
+		}
+	}
+	b.WriteString("}\n")
+	return b.String()
+}
 
 type binRecord struct {
 	Kind  string `json:"kind"`
@@ -105,6 +148,10 @@ func registries(m *modSpec, o *obsResult, pkgName string, withRand bool) string 
 
 // runTestBinary: what = which generated files to include ("gounions", "randdata")
 func runTestBinary(m *modSpec, o *obsResult, seed int64, samples int, withRand bool) *binResult {
+	return runTestBinaryX(m, o, seed, samples, withRand, nil)
+}
+
+func runTestBinaryX(m *modSpec, o *obsResult, seed int64, samples int, withRand bool, crud *crudOpts) *binResult {
 	res := &binResult{}
 	root, target := m.materialize()
 	dir := filepath.Dir(target)
@@ -133,8 +180,15 @@ func runTestBinary(m *modSpec, o *obsResult, seed int64, samples int, withRand b
 	if err == nil && withRand {
 		err = writeGen("zz_rand.go", o.Gen["randdata"].Text)
 	}
+	crudFile := ""
+	if err == nil && crud != nil {
+		if err = writeGen("zz_crud.go", crud.CrudText); err == nil {
+			b, _ := os.ReadFile(filepath.Join(dir, "zz_crud.go"))
+			crudFile = string(b)
+		}
+	}
 	if err == nil {
-		err = writeGen("zz_verif.go", registries(m, o, pkgName, withRand))
+		err = writeGen("zz_verif.go", registries(m, o, pkgName, withRand)+crudRegistries(crud, crudFile))
 	}
 	os.Chdir(cwd)
 	importsMu.Unlock()
@@ -148,6 +202,13 @@ func runTestBinary(m *modSpec, o *obsResult, seed int64, samples int, withRand b
 		return res
 	}
 	writeFile(filepath.Join(root, "cmd", "verifbin", "main.go"), strings.Replace(driverSrc, "TARGETIMPORT", importPath, 1))
+	writeFile(filepath.Join(root, "cmd", "verifbin", "crud.go"), strings.ReplaceAll(crudDriverSrc, "TARGETIMPORT", importPath))
+	writeFile(filepath.Join(dir, "zzmemdb", "memdb.go"), memdbSrc)
+	if crud != nil {
+		writeFile(filepath.Join(root, "pqstub", "go.mod"), "module github.com/lib/pq\n\ngo 1.21\n")
+		writeFile(filepath.Join(root, "pqstub", "pq.go"), pqFunctionalSrc)
+		writeFile(filepath.Join(root, "go.mod"), "module "+m.ModPath+"\n\ngo 1.21\n\nrequire github.com/lib/pq v0.0.0\n\nreplace github.com/lib/pq => ./pqstub\n")
+	}
 	bin := filepath.Join(root, "verifbin")
 	build := exec.Command("go", "build", "-o", bin, "./cmd/verifbin")
 	build.Dir = root
@@ -180,6 +241,13 @@ func runTestBinary(m *modSpec, o *obsResult, seed int64, samples int, withRand b
 				res.Records = append(res.Records, r)
 			}
 		}
+	}
+	if crud != nil {
+		out, errMsg := runOnce("crud", 120*time.Second)
+		parse(out)
+		res.RunErr = errMsg
+		os.Remove(bin)
+		return res
 	}
 	out, errMsg := runOnce("roundtrip", 120*time.Second)
 	parse(out)
